@@ -56,6 +56,11 @@ class FakeFS:
         self.files.append(name)
         self.rec.rec('create', name)
 
+    def delete(self, name):
+        if name in self.files:
+            self.files.remove(name)
+        self.rec.rec('delete', name)
+
     def glob(self, pattern):
         out = sorted(self.files, key=lambda n: self.order_key.get(n, 0))
         self.rec.rec('cycle', 'glob', tuple(out))
@@ -195,6 +200,8 @@ def run_source(sc):
                 fobj.append(op['data'])
             elif k == 'create':
                 fs.create(op['name'])
+            elif k == 'delete':
+                fs.delete(op['name'])
         await asyncio.sleep(sc.get('drain', 30))
         rec.rec('end')
 
